@@ -1,5 +1,7 @@
 """C09 - lists, maps, strings and comprehension macros follow reference semantics."""
 import itertools
+import json
+import os
 import random
 
 import re2
@@ -215,11 +217,94 @@ def map_contracts():
     return cs
 
 
+def field_contracts():
+    """e.f on a map through the compiled runner is MapType.get(name): the value of a present key - whatever it is (null,
+    false, 0, empty text or list) - and KeyError (converted by result()) for a missing one"""
+    cs = []
+    from contracts import c04_rules as R4
+    for d in R4.KINDS[:10]:
+        for present in (True, False):
+            def invoke(run, S, d=d, present=present):
+                S.v = d.make(run, "v")
+                S.m = VDict(ct.MapType, [[VStr(ct.StringType, "f" if present else "g"), S.v]], {})
+                return run.call(run.getattr(S.m, "get"), [VStr(ct.StringType, "f")])
+            cs.append(V.Contract("celpy.celtypes:MapType.get", [], name=f"MapType.get(present={present}, value {d.label})", invoke=invoke, native=False, cover=False,
+                                 ret=(lambda S, r: r is S.v) if present else None, exc={} if present else {KeyError: lambda S: True}))
+    return cs
+
+
+def matches_differential(rep, tier):
+    """matches() against a reference matcher (Python re.search) on a fragment where RE2 and the reference agree: literals, `.`,
+    classes, alternation, groups, * + ?, counted repetition, anchors; through both runners and both call forms"""
+    import re as pyre
+    import celpy
+    atoms = ["a", "b", ".", "[ab]", "[^a]", "(a|b)", "(ab)", "^", "$"]
+    quants = ["", "*", "+", "?", "{2}", "{1,2}", "{0}"]
+    pats = []
+    for a in atoms:
+        for q in quants:
+            if a in ("^", "$") and q:
+                continue
+            pats.append(a + q)
+    two = [x + y for x in pats for y in pats if len(x + y) <= 9]
+    import random
+    rng = random.Random(0)
+    if tier != "thorough":
+        two = rng.sample(two, 400)
+    pats = pats + two + ["a|b", "a|", "(a", "a{3,2}", "[a", "a**", "\\d", "a\\.b", "{2}", "a{2", "a{,2}"]
+    texts = ["", "a", "b", "aa", "ab", "ba", "abc", "aab", "a{2}", "bb", "c"]
+    envs = {}
+    for rn, runner in (("I", celpy.InterpretedRunner), ("C", celpy.CompiledRunner)):
+        celpy.CELParser.CEL_PARSER = None
+        envs[rn] = celpy.Environment(runner_class=runner)
+    progs = {(rn, form): envs[rn].program(envs[rn].compile(form)) for rn in envs for form in ("t.matches(p)", "matches(t, p)")}
+    fails, n = [], 0
+    devnull = os.open(os.devnull, os.O_WRONLY)
+    saved = os.dup(2)
+    os.dup2(devnull, 2)
+    try:
+        for p_ in pats:
+            try:
+                rx = pyre.compile(p_)
+            except pyre.error:
+                rx = None
+            for t in texts:
+                want = "error" if rx is None else bool(rx.search(t))
+                for key, prog in progs.items():
+                    n += 1
+                    try:
+                        got = bool(prog.evaluate({"t": ct.StringType(t), "p": ct.StringType(p_)}))
+                    except ev.CELEvalError:
+                        got = "error"
+                    except Exception as ex:
+                        got = f"escaped {type(ex).__name__}"
+                    if got != want and not (rx is None and got == "error"):
+                        if rx is not None and want != got and p_ in ("a{,2}",):
+                            continue        # Python reads {,2} as a quantifier, RE2 as text: outside the common fragment
+                        fails.append({"pattern": p_, "text": t, "runner_form": list(key), "observed": got, "reference": want})
+    finally:
+        os.dup2(saved, 2)
+        os.close(saved)
+        os.close(devnull)
+    rep.bounded.append({"function": "function_matches vs re.search on the common regular-expression fragment", "cases": n, "distinct_nontrivial": len(pats) * len(texts),
+                        "failures": len(fails), "bound": f"{len(pats)} patterns (one and two quantified atoms, invalid ones) x {len(texts)} texts x 2 runners x 2 call forms"})
+    seen = set()
+    for f in fails:
+        if f["pattern"] in seen:
+            continue
+        seen.add(f["pattern"])
+        o = rep.add(V.Obl(f"matches[{f['pattern']!r} on {f['text']!r}]", "B", "celpy.evaluation:function_matches", "agrees with the reference matcher; an invalid pattern is an evaluation error"))
+        o.status, o.backend = "refuted", "cpython"
+        o.detail = "failing input: " + json.dumps(f)
+        o.replay = {"replayed": True, "confirmed": True, "inputs": f}
+
+
 def build(rep, tier="quick", seed=0, known=None):
     from contracts import c09_macros
-    cs = index_contracts() + in_contracts() + string_contracts() + map_contracts() + c09_macros.contracts()
+    cs = index_contracts() + in_contracts() + string_contracts() + map_contracts() + field_contracts() + c09_macros.contracts()
     run_contracts(cs, rep, known=known)
     c09_macros.bounded(rep, tier, seed)
+    matches_differential(rep, tier)
     rep.trusted |= {
         "z3 sequences/strings model list and str payloads (len counts code points); RE2 matching semantics are trusted",
         "element equality inside containers is an arbitrary boolean per comparison (same-typed elements)",
